@@ -16,6 +16,7 @@
                                                                       `setitem_reject`, `setitem_reject_step`, `err_unchanged`
 -/
 import PygProofs.Lemmas.TableNodup
+import PygProofs.Lemmas.SliceLemmas
 
 namespace Pyg.Props.C01
 open Pyg Table
@@ -443,6 +444,66 @@ theorem mask_reject (t : Table) (n : Nat) (hr : t.Rect n) (hne : t ≠ []) (m : 
     omega
   rw [this]
 
+/-- a mask of length 1 is repeated for every row: `d[[True]]` is the table, `d[[False]]` its columns
+without rows -/
+theorem mask_one (t : Table) (n : Nat) (hr : t.Rect n) (hne : t ≠ []) (b : Bool) :
+    t.getMask [b] = .ok (if b then t else t.emptyLike) := by
+  have hz : zipper2 (List.range n) [b] = .ok ((List.range n).zip (List.replicate n b)) := by
+    unfold zipper2
+    have hl : lens [(List.range n).length, [b].length] = .ok n := by
+      by_cases h1 : n = 1
+      · subst h1; rfl
+      · simp [lens, h1]
+    rw [hl]
+    simp only
+    congr 2
+    · by_cases h1 : n = 1
+      · subst h1; rfl
+      · unfold bcast
+        split
+        · rename_i x hx
+          have := congrArg List.length hx
+          simp at this; exact absurd this h1
+        · rfl
+  unfold getMask maskIdx
+  rw [nrows_of_rect hr hne, hz]
+  simp only
+  have hp := positions_range n (List.replicate n b) (by simp)
+  rw [hp]
+  have hf : (List.range n).filter (fun i => (List.replicate n b).getD i false) =
+      if b then List.range n else [] := by
+    cases b with
+    | true =>
+      apply List.filter_eq_self.2
+      intro i hi
+      have : i < n := by simpa using hi
+      simp [List.getD_eq_getElem?_getD, this]
+    | false =>
+      apply List.filter_eq_nil_iff.2
+      intro i hi
+      have : i < n := by simpa using hi
+      simp [List.getD_eq_getElem?_getD, this]
+  rw [hf]
+  cases b with
+  | false => simp
+  | true =>
+    simp only [if_true]
+    split
+    · rename_i he
+      have h0 : n = 0 := by simpa using he
+      subst h0
+      -- a table without rows is its own `emptyLike`
+      congr 1
+      unfold emptyLike
+      calc t.map (fun c => (c.1, ([] : List Cell))) = t.map (fun c => c) := by
+            apply List.map_congr_left
+            intro c hc
+            have := hr c hc
+            have h2 : c.2 = [] := List.eq_nil_of_length_eq_zero this
+            rw [← h2]
+        _ = t := by simp
+    · rw [gatherRows_range hr]
+
 /-- `d[[i, j, ...]]` succeeds iff every index is in range and then lists those records in that order
 (repeats allowed) -/
 theorem take_rows (t t' : Table) (n : Nat) (hr : t.Rect n) (hne : t ≠ []) (is : List Int)
@@ -456,6 +517,25 @@ theorem slice_rows (t : Table) (n : Nat) (hr : t.Rect n) (hne : t ≠ []) (a b s
     ∃ t', t.getSlice a b s = .ok t' ∧ t'.cols = t.cols ∧
       t'.rows = (sliceIdx n a b (s.getD 1)).map t.row := by
   refine ⟨_, getSlice_eq_gather hr a b s hs, cols_gatherRows t _, rows_gatherRows hne _⟩
+
+/-- a slice only ever selects existing records (whatever the bounds, also far outside the table) -/
+theorem slice_in_range (n : Nat) (a b : Option Int) (s : Int) (hs : s ≠ 0) :
+    ∀ i ∈ sliceIdx n a b s, i < n := sliceIdx_lt n a b s hs
+
+/-- a slice with a positive step returns a sub-sequence of the records: original order, no repeats;
+with a negative step the selected positions strictly decrease -/
+theorem slice_order (t : Table) (n : Nat) (hr : t.Rect n) (hne : t ≠ []) (a b : Option Int) (s : Int) :
+    (s > 0 → ∃ t', t.getSlice a b (some s) = .ok t' ∧ t'.rows.Sublist t.rows) ∧
+    (s < 0 → (sliceIdx n a b s).Pairwise (· > ·)) := by
+  constructor
+  · intro hs
+    have hs0 : (some s : Option Int) ≠ some 0 := by simp; omega
+    obtain ⟨t', h1, _, h3⟩ := slice_rows t n hr hne a b (some s) hs0
+    refine ⟨t', h1, ?_⟩
+    rw [h3, rows, nrows_of_rect hr hne]
+    exact List.Sublist.map _ (sublist_range_of_increasing _ n (sliceIdx_lt n a b s (by omega))
+      (sliceIdx_increasing n a b s hs))
+  · exact sliceIdx_decreasing n a b s
 
 /-- the index list of the full slice `[:]` -/
 theorem sliceIdx_all (n : Nat) : sliceIdx n Option.none Option.none 1 = List.range n := by
@@ -598,6 +678,70 @@ theorem new_records (rs : List (List (String × Cell))) (hne : rs ≠ []) :
       simp only [List.length_map, List.length_range] at h1
       simp [row, cols, dictConcat, List.map_map, Function.comp_def, List.getD_eq_getElem?_getD, h1]
 
+/-- construction from rows + headers (`dictable([[1,2],[3,4]], columns = ['a','b'])`), every row as long
+as the header: the table has the header as columns and exactly the given rows -/
+theorem new_rows (cs : List String) (rs : List (List Cell)) (hcs : cs.Nodup) (hk : cs ≠ [])
+    (hrs : ∀ r ∈ rs, r.length = cs.length) :
+    construct (.rows rs) (some cs) [] = some (.ok (ofRows cs rs)) ∧
+    (ofRows cs rs).Rect rs.length ∧ (ofRows cs rs).cols = cs ∧ (ofRows cs rs).rows = rs := by
+  refine ⟨?_, ofRows_rect cs rs, ofRows_cols cs rs, ofRows_rows cs rs hk hrs⟩
+  have hnd : (ofRows cs rs).cols.Nodup := by rw [ofRows_cols]; exact hcs
+  have hkpos : 0 < cs.length := List.length_pos_iff.2 hk
+  cases rs with
+  | nil =>
+    have h1 : construct (.rows []) (some cs) [] = some (Table.finish (ofPairs (cs.map fun k => (k, [])))) := rfl
+    have h2 : (cs.map fun k => (k, ([] : List Cell))) = ofRows cs [] := by
+      rw [ofRows_eq_zip]
+      apply List.ext_getElem
+      · simp
+      · intro i h1 h2
+        simp
+    rw [h1, h2, ofPairs_self_of_nodup _ hnd, finish_rect (ofRows_rect cs [])]
+  | cons r0 rest =>
+    have hlens : lens ((r0 :: rest).map (·.length)) = .ok cs.length := by
+      apply lens_const (by simp)
+      intro l hl
+      obtain ⟨r, hr, rfl⟩ := List.mem_map.1 hl
+      exact hrs r hr
+    have hz : zipper Cell.none (r0 :: rest) =
+        .ok ((List.range cs.length).map fun j => (r0 :: rest).map fun r => r.getD j .none) := by
+      unfold zipper
+      rw [hlens]
+      simp only
+      congr 1
+      apply List.map_congr_left
+      intro j _
+      apply List.map_congr_left
+      intro r hr
+      rw [bcast_self (hrs r hr)]
+    have hz2 : zipper2 cs ((List.range cs.length).map fun j => (r0 :: rest).map fun r => r.getD j .none) =
+        .ok (ofRows cs (r0 :: rest)) := by
+      unfold zipper2
+      have : lens [cs.length, ((List.range cs.length).map fun j =>
+          (r0 :: rest).map fun r => r.getD j Cell.none).length] = .ok cs.length := by
+        apply lens_const (by simp)
+        intro l hl
+        simp at hl
+        rcases hl with rfl | rfl <;> rfl
+      rw [this]
+      simp only
+      rw [bcast_self rfl, bcast_self (by simp), ofRows_eq_zip]
+    have hdc : dataCols (.rows (r0 :: rest)) (some cs) = some (.ok (ofRows cs (r0 :: rest))) := by
+      simp only [dataCols, hz, hz2, ofPairs_self_of_nodup _ hnd]
+    have hne : ofRows cs (r0 :: rest) ≠ [] := by
+      intro he
+      have := ofRows_cols cs (r0 :: rest)
+      rw [he] at this
+      exact hk this.symm
+    have hlen : (ofRows cs (r0 :: rest)).length > 0 := List.length_pos_iff.2 hne
+    have hrestrict := restrict_self hnd
+    rw [ofRows_cols] at hrestrict
+    simp only [construct, hdc, List.map_nil, ofPairs, List.foldl_nil, updateWith_nil]
+    change some (Table.finish (if (ofPairs (ofRows cs (r0 :: rest))).length > 0 then
+        ofPairs (cs.map fun k => (k, ((ofPairs (ofRows cs (r0 :: rest))).col? k).getD [Cell.none]))
+      else ofPairs (cs.map fun k => (k, [])))) = _
+    rw [ofPairs_self_of_nodup _ hnd, if_pos hlen, hrestrict, finish_rect (ofRows_rect cs _)]
+
 /-! ### derived columns, renaming, projection -/
 
 /-- `d(k = f)` / `d[k] = d[f]`: the new column holds `f(row)` for every row, every other column is
@@ -624,6 +768,30 @@ theorem derived_column (t t' : Table) (n : Nat) (hr : t.Rect n) (hne : t ≠ [])
     intro i hi
     have := mapE_ok_getElem hvs i (by simpa [mapE_ok_length hvs] using hi) hi
     simpa using this
+
+/-- `d.do(f, k)` on an existing column: the column becomes `f(value, **others)` row by row, every other
+column is untouched -/
+theorem do_column (t t' : Table) (n : Nat) (hr : t.Rect n) (hne : t ≠ []) (f : DoFn) (k : String)
+    (col : List Cell) (hcol : t.col? k = some col) (h : t.doKey f k = .ok t') :
+    ∃ vs, t'.col? k = some vs ∧ vs.length = n ∧
+      (∀ i (hi : i < vs.length), f.eval (col.getD i .none) (t.cellAt i) = .ok vs[i]) ∧
+      (∀ k', k' ≠ k → t'.col? k' = t.col? k') ∧ t'.Rect n := by
+  unfold doKey at h
+  split at h
+  · cases h
+  · rename_i vs hvs
+    have hlen : vs.length = n := by
+      have := mapE_ok_length hvs
+      simpa [nrows_of_rect hr hne] using this
+    have hset : t.setitem k (.many vs) = .ok (t.set k vs) := by
+      have hemp : t.isEmpty = false := by cases t <;> simp_all
+      simp [setitem, len_rect hr hne, ColVal.value, hlen]
+    rw [hset] at h
+    cases h
+    refine ⟨vs, by simp [col?_set], hlen, ?_, fun k' hk' => by simp [col?_set, hk'], set_rect hr hlen⟩
+    intro i hi
+    have := mapE_ok_getElem hvs i (by simpa [mapE_ok_length hvs] using hi) hi
+    simpa [cellAt, hcol] using this
 
 /-- renaming without collisions renames the columns in place and keeps every record -/
 theorem relabel_rows (t : Table) (r : Relabel) (hinj : (t.cols.map r.key).Nodup) :
